@@ -18,6 +18,8 @@ type Meta struct {
 	Dir     string `json:"dir"`     // module dir (default /repo)
 	Pkg     string `json:"pkg"`     // package pattern (default ./vgirpc)
 	PkgDir  string `json:"pkg_dir"` // directory of the package relative to Dir (default vgirpc)
+	PkgName string `json:"pkg_name"` // package clause to give the overlay files (default: unchanged, "vgirpc")
+	Common  string `json:"common"`   // harness/<common> directory holding the shared overlay files (default "common")
 	Level   string `json:"level"`
 	Summary string `json:"summary"`
 }
@@ -109,6 +111,9 @@ func cmdRun(args []string) int {
 			}
 			// rewrite package clause if the target package has a different name
 			virt := filepath.Join(meta.Dir, meta.PkgDir, "zz_verif_"+n)
+			if meta.PkgName != "" {
+				b = []byte(strings.Replace(string(b), "package vgirpc", "package "+meta.PkgName, 1))
+			}
 			overlay[virt] = b
 			harnessFiles = append(harnessFiles, filepath.Join(d, n))
 		}
@@ -119,7 +124,9 @@ func cmdRun(args []string) int {
 		return 2
 	}
 	commonDir := filepath.Join(*root, "harness", "common")
-	if meta.PkgDir != "vgirpc" {
+	if meta.Common != "" {
+		commonDir = filepath.Join(*root, "harness", meta.Common)
+	} else if meta.PkgDir != "vgirpc" {
 		commonDir = filepath.Join(*root, "harness", "common_"+filepath.Base(meta.PkgDir))
 	}
 	if err := addDir(commonDir); err != nil {
